@@ -294,6 +294,7 @@ func (eng) Generate(mode, tier string, r *hx.Rand) []*hx.Case {
 		count = 6000
 	}
 	var cs []*hx.Case
+	r = r.Fork() // hx.NewRand(seed) streams of neighbouring seeds are shifts of each other; decorrelate
 	for i := 0; i < count; i++ {
 		cs = append(cs, genCase(r.Fork(), i, tier))
 	}
